@@ -118,6 +118,8 @@ impl AdjustHeightsHeap {
             );
         }
         if child.height() >= parent.height() {
+            #[cfg(cormacrelf_incremental_rs_verif)]
+            crate::verif::probe(crate::verif::Probe::AdjustHeightsMovedNode);
             self.add_unless_mem(parent.clone());
             /* We set [parent.height] after adding [parent] to the heap, so that [parent] goes
             in the heap with its pre-adjusted height. */
